@@ -4,7 +4,7 @@
 (* to_hashable, _hashable_iterable, _hashable_mapping; used by memoize,     *)
 (* Pipeline._run (compute_cache_key) and map (_get_or_set_cache)).          *)
 (*                                                                         *)
-(* Three things are defined here, none of them has state:                  *)
+(* Four things are defined here, none of them has state:                   *)
 (*   1. abstract Python values (records) and  Eq(v, w): the REQUIRED        *)
 (*      notion of "same argument value" (the oracle of the property);       *)
 (*   2. abstract hashable Python values ("keys") and  KeyVal(v, fx): a      *)
@@ -15,7 +15,12 @@
 (*      models the required behaviour, the implementation-shaped variant    *)
 (*      exists so that TLC exhibits where the coded scheme breaks);         *)
 (*   3. the laws: KeyTotal, KeySound (equal keys only for Eq values),       *)
-(*      KeyComplete (Eq values have equal keys), both up to DontCare.       *)
+(*      KeyComplete (Eq values have equal keys), both up to DontCare;       *)
+(*   4. calls of a memoized function (memoize.<locals>.wrapper): a call is  *)
+(*      positional arguments AND keyword arguments, SameArguments(c, d) is   *)
+(*      the required notion of "a call whose arguments equal those of the    *)
+(*      call that produced the result", MemoKey(c, mx, fx) transcribes the   *)
+(*      wrapper's key, MemoSound / MemoComplete are the laws.                *)
 (*                                                                         *)
 (* Equality of abstract keys (TLA+ "=") stands for Python's == on the real  *)
 (* keys: that is why numbers are normalised (1 == 1.0 == True in Python and *)
@@ -59,6 +64,11 @@ Series(name, index, data) == V("Series", name, 0, <<Tuple(index), Tuple(data)>>)
 DataFrame(cols, index, data) == V("DataFrame", "", 0, <<Tuple(cols), Tuple(index), Tuple(data)>>)
         \* cols = sequence of Strs (unique); data = one Tuple of cell values per column, in column order
 Obj(cls, fields) == V("Obj", cls, 0, fields)      \* instance of an importable dataclass, fields in order
+Call(sig, args, kw) == V("Call", sig, 0, <<Tuple(args), Dict(kw)>>)
+        \* one call f(*args, **kw) of a memoized function (section 4); sig names the signature of f;
+        \* kw = sequence of Pair(Str(name), value) in the order written.  Never a member of another value.
+        \* Eq on calls (the generic branch of Sim) = the same call: same signature, Eq positional values in
+        \* order, the same keywords with Eq values (the order in which keywords are written is not significant)
 
 NumTypes     == {"Int", "Bool", "Float"}
 ScalarTypes  == NumTypes \cup {"Str", "Bytes"}
@@ -289,4 +299,83 @@ Repaired == {"sort", "objarr", "pandas"}      \* sort: total, process-independen
 KeyTotal(v, fx)       == Problems(v, fx) = {}
 KeySound(v, w, fx)    == KeyVal(v, fx) = KeyVal(w, fx) => Eq(v, w) \/ DontCare(v, w)
 KeyComplete(v, w, fx) == Eq(v, w) /\ ~DontCare(v, w) => KeyVal(v, fx) = KeyVal(w, fx)
+
+---------------------------------------------------------------------------
+(* 4. Calls of a memoized function (pipefunc/cache.py, memoize.<locals>.wrapper).                    *)
+(*                                                                                                  *)
+(*        def wrapper(*args, **kwargs):                                                             *)
+(*            key = try_to_hashable((args, kwargs), ...)     # MemoKey                              *)
+(*            if key in cache: return cache.get(key)         # a stored result is returned           *)
+(*            result = func(*args, **kwargs); cache.put(key, result)                                *)
+(*                                                                                                  *)
+(* The property: the stored result is returned only for a call whose ARGUMENTS equal those of the    *)
+(* call that produced it.  The arguments of a call are what the function receives, so they are       *)
+(* defined through the signature of the memoized function.  Two signatures are modelled:             *)
+(*    "var"   : def f(*args, **kwargs)       receives the tuple args and the dict kwargs themselves:  *)
+(*              f(1, 2), f((1, 2)), f((1, 2), {}), f(1, q=2), f(1, ("q", 2)) are all different calls  *)
+(*    "fixed" : def f(p, q=0, *, r=1)        receives p, q, r (Python's binding rules, defaults)      *)
+CallArgs(c) == c.a[1].a                              \* the positional arguments, in order
+CallKw(c)   == c.a[2].a                              \* the keyword arguments: Pair(Str(name), value)
+CallV(c)    == Tuple(c.a)                            \* the object (args, kwargs) the wrapper builds
+KwNames(c)  == {CallKw(c)[i].a[1].s : i \in DOMAIN CallKw(c)}
+KwVal(c, name) == CallKw(c)[CHOOSE i \in DOMAIN CallKw(c) : CallKw(c)[i].a[1].s = name].a[2]
+
+FixedPos     == <<"p", "q">>                         \* positional-or-keyword parameters of "fixed"
+FixedNames   == {"p", "q", "r"}                      \* r is keyword-only
+FixedDefault == [n \in {"q", "r"} |-> IF n = "q" THEN IntV(0) ELSE IntV(1)]
+PosNames(c)  == {FixedPos[i] : i \in 1..Len(CallArgs(c))}          \* parameters filled positionally
+
+(* the call is accepted by the signature (otherwise Python raises TypeError before the wrapper body) *)
+Binds(c) == \/ c.s = "var"
+            \/ /\ c.s = "fixed"
+               /\ Len(CallArgs(c)) <= Len(FixedPos)                  \* no surplus positional argument
+               /\ KwNames(c) \subseteq FixedNames                    \* no unknown keyword
+               /\ KwNames(c) \cap PosNames(c) = {}                   \* no parameter given twice
+               /\ "p" \in PosNames(c) \cup KwNames(c)                \* the required parameter is given
+
+ParamVal(c, name) ==
+    IF name \in PosNames(c) THEN CallArgs(c)[CHOOSE i \in 1..Len(CallArgs(c)) : FixedPos[i] = name]
+    ELSE IF name \in KwNames(c) THEN KwVal(c, name)
+    ELSE FixedDefault[name]
+
+(* what the function receives: one value per parameter of its signature *)
+Bound(c) == IF c.s = "var" THEN <<Tuple(CallArgs(c)), Dict(CallKw(c))>>
+            ELSE <<ParamVal(c, "p"), ParamVal(c, "q"), ParamVal(c, "r")>>
+
+(* THE ORACLE for memoize: two calls of one function with equal arguments *)
+SameArguments(c, d) == c.s = d.s /\ Binds(c) /\ Binds(d) /\ Eq(Tuple(Bound(c)), Tuple(Bound(d)))
+
+(* Either outcome (hit or miss) is accepted for two calls of one function when                        *)
+(*  (a)-(c) of DontCare apply to what the function receives or to the (args, kwargs) objects;         *)
+(*  (e) the arguments are equal but are PASSED differently (f(1, 2) / f(1, q=2) / f(1) with q=0       *)
+(*      defaulted / f(1, q=0)): memoize does not bind the signature, a miss is harmless.              *)
+CallDontCare(c, d) == /\ c.s = d.s
+                      /\ \/ DontCare(Tuple(Bound(c)), Tuple(Bound(d)))
+                         \/ DontCare(CallV(c), CallV(d))
+                         \/ SameArguments(c, d) /\ ~Eq(c, d)
+
+CallWellFormed(c) == /\ c.t = "Call" /\ c.s \in {"var", "fixed"}
+                     /\ WellFormed(CallV(c))
+                     /\ \A i \in DOMAIN CallKw(c) : CallKw(c)[i].a[1].t = "Str"
+                     /\ \A x \in Elems(CallArgs(c)) : x.t # "Call"
+                     /\ Binds(c)
+
+(* The key of the wrapper.  `mx` selects how the wrapper composes the object it hands to to_hashable: *)
+(*   {}            as coded: the pair (args, kwargs), always                                          *)
+(*   {"bareargs"}  a plausible "optimisation": (args, kwargs) if kwargs else args  - then a           *)
+(*                 positional-only call f(t, d) with a tuple and a dict IS the pair of f(*t, **d)      *)
+(*   {"kwvalues"}  args + tuple(kwargs.values()): keyword NAMES and the positional/keyword split lost  *)
+(* The two variants exist so that TLC exhibits that MemoSound has teeth on the universe of calls.      *)
+MemoObject(c, mx) ==
+    IF "bareargs" \in mx /\ CallKw(c) = <<>> THEN Tuple(CallArgs(c))
+    ELSE IF "kwvalues" \in mx THEN Tuple(CallArgs(c) \o [i \in DOMAIN CallKw(c) |-> CallKw(c)[i].a[2]])
+    ELSE CallV(c)
+MemoKey(c, mx, fx)   == KeyVal(MemoObject(c, mx), fx)
+MemoProblems(c, fx)  == Problems(CallV(c), fx)
+WrapperAsCoded == {}
+
+(* the laws for calls c, d of ONE memoized function (one cache) *)
+MemoTotal(c, fx)           == MemoProblems(c, fx) = {}
+MemoSound(c, d, mx, fx)    == c.s = d.s /\ MemoKey(c, mx, fx) = MemoKey(d, mx, fx) => SameArguments(c, d) \/ CallDontCare(c, d)
+MemoComplete(c, d, mx, fx) == Eq(c, d) /\ ~CallDontCare(c, d) => MemoKey(c, mx, fx) = MemoKey(d, mx, fx)
 =============================================================================
